@@ -9,7 +9,7 @@ HERE = "let _here = rt::here(fastrace::func_path!());"
 
 
 class F:
-    def __init__(self, name, code, calls, attr="", is_async=False, async_trait=False, eop=False, lit=None, props=None, prelude="", traced_names=None):
+    def __init__(self, name, code, calls, attr="", is_async=False, async_trait=False, eop=False, lit=None, props=None, prelude="", traced_names=None, split=None):
         self.name = name          # function name (last path segment) used for expectations
         self.code = code          # item source with the marker #[TRACE]
         self.calls = calls        # list of (input label, expr template using M:: for the module)
@@ -21,6 +21,7 @@ class F:
         self.props = props or []  # list of (key, rust expr -> String), evaluated inside the case with the input bound
         self.prelude = prelude    # statements binding the input variables for props (per call label)
         self.traced_names = traced_names or [name]
+        self.split = split or []  # (label, expr): the call is made under rt::under_split_parent, the poll outside
 
 
 def corpus():
@@ -107,7 +108,8 @@ pub struct Imp(pub u32);
 impl Tr for Imp {
     #[TRACE]
     async fn tm(&self, x: u32) -> u32 { HERE rt::log("tm"); rt::Yield(1).await; x * self.0 }
-}""", [("2*3", '{ use M::Tr; format!("{:?}", rt::block_on(M::Imp(3).tm(2))) }')], is_async=True, async_trait=True))
+}""", [("2*3", '{ use M::Tr; format!("{:?}", rt::block_on(M::Imp(3).tm(2))) }')], is_async=True, async_trait=True,
+               split=[("2*3", '{ use M::Tr; let imp = M::Imp(3); let fut = rt::under_split_parent(|| imp.tm(2)); format!("{:?}", rt::block_on(fut)) }')]))
     c.append(F("am", """pub trait Tr2 { fn am(&self, x: u32) -> impl std::future::Future<Output = u32>; }
 pub struct Imp2(pub u32);
 impl Tr2 for Imp2 {
@@ -231,6 +233,8 @@ def emit(fs, seed):
             if f.props:
                 out.append("        h.set_props(%s, vec![%s]);\n" % (json.dumps(f.name, ensure_ascii=False), ", ".join("(%s.to_string(), %s)" % (json.dumps(k), e) for k, e in f.props)))
             out.append("        h.case(%s, %s, &|| %s, &|| %s);\n    }\n" % (json.dumps(f.traced_names[0] if f.name not in f.traced_names else f.name), json.dumps(label, ensure_ascii=False), expr.replace("M::", "plain::"), expr.replace("M::", "traced::")))
+        for label, expr in f.split:
+            out.append("    h.case_split(%s, %s, &|| %s, &|| %s);\n" % (json.dumps(f.name), json.dumps(label, ensure_ascii=False), expr.replace("M::", "plain::"), expr.replace("M::", "traced::")))
         out.append("}\n\n")
     out.append("pub fn run_all(h: &mut H) {\n")
     for f in fs:
